@@ -253,6 +253,44 @@ func (c *c06ctx) storesWS(fn *ssa.Function, field string, val string) []*ssa.Sto
 	return out
 }
 
+// wsEvents: the instructions of fn that set WritingState.field to the constant val: a direct
+// store, or a call of a module setter that always stores its parameter there
+// (`ws.SetPaused(true)`), with the constant as the argument.
+func (c *c06ctx) wsEvents(fn *ssa.Function, field, val string) []ssa.Instruction {
+	var out []ssa.Instruction
+	for _, st := range c.storesWS(fn, field, val) {
+		out = append(out, st)
+	}
+	Instrs(fn, func(in ssa.Instruction) {
+		cc := CallOf(in)
+		if cc == nil || cc.IsInvoke() {
+			return
+		}
+		if _, isGo := in.(*ssa.Go); isGo {
+			return
+		}
+		h := cc.StaticCallee()
+		if !isModuleFn(h) || len(h.Blocks) == 0 || len(h.Params) != len(cc.Args) || h == fn {
+			return
+		}
+		for _, st := range StoresTo(h, c.ws.Obj().Name(), field) {
+			prm, ok := st.Val.(*ssa.Parameter)
+			if !ok || !alwaysExecutes(st) {
+				continue
+			}
+			for i, q := range h.Params {
+				if q != prm {
+					continue
+				}
+				if cst, ok := cc.Args[i].(*ssa.Const); ok && cst.Value != nil && cst.Value.String() == val {
+					out = append(out, in)
+				}
+			}
+		}
+	})
+	return out
+}
+
 // setsWS: does calling fn store the constant into WritingState.field (directly or through static callees)?
 func (c *c06ctx) setsWS(fn *ssa.Function, field, val string) bool {
 	ok, _ := c.p.Reaches(fn, func(f *ssa.Function) bool { return len(c.storesWS(f, field, val)) > 0 }, 2)
@@ -289,8 +327,8 @@ func (c *c06ctx) ruleR2() {
 				return
 			}
 			isStore := func(x ssa.Instruction) bool {
-				for _, s := range c.storesWS(fn, "Paused", v) {
-					if x == ssa.Instruction(s) {
+				for _, s := range c.wsEvents(fn, "Paused", v) {
+					if x == s {
 						return true
 					}
 				}
@@ -306,7 +344,7 @@ func (c *c06ctx) ruleR2() {
 		// R2b: reported Paused stores outside WritingState methods
 		if fn.Signature.Recv() == nil || typeName(fn.Signature.Recv().Type()) != c.ws.Obj().Name() {
 			for _, v := range []string{"true", "false"} {
-				for _, st := range c.storesWS(fn, "Paused", v) {
+				for _, st := range c.wsEvents(fn, "Paused", v) {
 					r.Fn(FuncName(fn))
 					good := false
 					for _, l := range loops {
@@ -1208,9 +1246,8 @@ func (c *c06ctx) ruleR8() {
 			r.OK("C06.R8", FuncName(fn)+" returns the Active flag unaltered", p.Pos(fn.Pos()), "combines Active with other state, but is not what the stop step or the record-length guard ask")
 			continue
 		}
-		_ = usedBy
 		r.Check(pure, "C06.R8", FuncName(fn)+" returns the Active flag unaltered", p.Pos(fn.Pos()), "result is the Active field on every path",
-			"the predicate combines Active with something else: while files are open (Active) it can answer false, so the guard that refuses a change of record length during writing lets it through, and records of the new lengths are appended to files whose headers state the old ones")
+			"the predicate combines Active with something else: while files are open (Active) it can answer false"+map[bool]string{true: " to " + usedBy + ", which asks it whether files are open", false: ""}[usedBy != ""]+": a paused session is then not stopped when the source stops (its files stay open), and the guard that refuses a change of record length during writing lets it through, so records of the new lengths are appended to files whose headers state the old ones")
 	}
 	if n == 0 {
 		r.Bad("C06.R8", "activity predicate", "-", "no predicate of the writing state reads the Active flag")
